@@ -33,7 +33,7 @@ def run(run):
     look += polar[: (160 if quick else len(polar))]
     li = core.impl_only(run, look)
     cells = [int(a.split()[1]) for a in li if a.startswith("ok ")]
-    cells += [gen.rand_cell(rng, rng.randint(0, 29)) for _ in range(200 if quick else 8000)]
+    cells += [gen.rand_cell(rng, rng.randint(0, 29)) for _ in range(run.n(200, 8000))]
     cells += [spec.encode(0, f, ()) for f in range(12)] + [spec.encode(1, T, ()) for T in range(0, 60, 7)]
     reqs, meta = [], []
     for c in cells:
